@@ -1,7 +1,17 @@
 package cs
 
 import (
+	"archive/tar"
+	"bytes"
 	"context"
+	"fmt"
+	"runtime/debug"
+	"sort"
+
+	"github.com/google/go-containerregistry/pkg/v1/empty"
+	"github.com/google/go-containerregistry/pkg/v1/mutate"
+	"github.com/google/go-containerregistry/pkg/v1/static"
+	ocitypes "github.com/google/go-containerregistry/pkg/v1/types"
 
 	"k8s.io/apimachinery/pkg/types"
 	"sigs.k8s.io/controller-runtime/pkg/handler"
@@ -23,6 +33,9 @@ func buildPackageControllers(p *Process, mgr, unc *Client) {
 		if err != nil {
 			return nil, err
 		}
+		if img := w.Registry.Images[image]; img != nil && (img.Class == "torn" || img.Class == "torn-late" || img.Class == "empty-image" || img.Class == "corrupt-header") {
+			return pullThroughOCI(ctx, w, img, files)
+		}
 		return &packages.RawPackage{Files: files}, nil
 	})
 	p.extra["requestManager"] = rm
@@ -42,4 +55,48 @@ func buildPackageControllers(p *Process, mgr, unc *Client) {
 		c.watch(cl, gk("ClusterPackage"), &handler.EnqueueRequestForObject{})
 		c.watch(cl, gk("ClusterObjectDeployment"), ownsHandler(&corev1alpha1.ClusterPackage{}, w))
 	}
+}
+
+// pullThroughOCI serves the image through the real OCI import (packages.FromOCI)
+// from an in-memory image whose single layer is truncated or empty.
+func pullThroughOCI(ctx context.Context, w *World, img *PkgImage, files map[string][]byte) (raw *packages.RawPackage, err error) {
+	var buf bytes.Buffer
+	tw := tar.NewWriter(&buf)
+	names := make([]string, 0, len(files))
+	for n := range files {
+		names = append(names, n)
+	}
+	sort.Strings(names)
+	if img.Class != "empty-image" {
+		for _, n := range names {
+			_ = tw.WriteHeader(&tar.Header{Name: "package/" + n, Mode: 0o644, Size: int64(len(files[n]))})
+			_, _ = tw.Write(files[n])
+		}
+	}
+	_ = tw.Close()
+	b := buf.Bytes()
+	switch img.Class {
+	case "torn":
+		b = b[:len(b)*3/10]
+	case "torn-late":
+		b = b[:len(b)-1100]
+	case "corrupt-header":
+		// cut inside the header block of the second entry
+		if i := bytes.Index(b[512:], []byte("package/")); i >= 0 {
+			b = b[:512+i+200]
+		}
+	}
+	layer := static.NewLayer(b, ocitypes.DockerUncompressedLayer)
+	image, aerr := mutate.AppendLayers(empty.Image, layer)
+	if aerr != nil {
+		return nil, aerr
+	}
+	w.Stats.Fault("pull-torn")
+	defer func() {
+		if rec := recover(); rec != nil {
+			w.reportPanicOutsidePass("OCI import of image "+img.Ref+" ("+img.Class+")", rec, "panic(\n"+string(debug.Stack()))
+			raw, err = nil, fmt.Errorf("import panicked: %v", rec)
+		}
+	}()
+	return packages.FromOCI(ctx, image)
 }
